@@ -37,6 +37,12 @@ def lab(s):
 LABELS = ["A", "B", "C", "a", "0", "S1", "zz", "Ab", "x_1", " q"]
 
 
+STREAMS_NOTE = ("Generator streams shared by all model-based campaigns: amplitudes dyadic (exact degeneracies), decimal, and weak "
+                "(x 2^-10..2^-24); 6-operator terms; inverse temperatures 0.5..400 (C09: 1e-3..1e3); every 3rd case may carry a "
+                "constant energy offset; optional power-of-two rescaling of the whole model; every 4th case of the near-degenerate "
+                "stream lifts a degeneracy by 1e-10..1e-4; both matrix-element builds (real, complex) in both tiers; minimised past "
+                "failures from corpus/<id>/ run first.")
+
 SCALE = [1.0]      # overall (power-of-two) energy scale of the model being generated
 
 
